@@ -403,10 +403,13 @@ def _all_or_nothing(method):
     @functools.wraps(method)
     def wrapper(self, *args, **kwargs):
         saved = list(self._opcodes)
+        frames = [(op, op.arg, op.data) for op in saved if isinstance(op, Frame)]
         try:
             return method(self, *args, **kwargs)
         except BaseException:
             self[:] = saved
+            for frame, arg, data in frames:
+                frame.arg, frame.data = arg, data
             raise
 
     return wrapper
@@ -427,8 +430,29 @@ class Pickled(OpcodeSequence):
     def __getitem__(self, index: int) -> Opcode:
         return self._opcodes[index]
 
+    def _enclosing_frame(self, index: int) -> Optional["Frame"]:
+        """The FRAME whose announced byte range an opcode inserted at `index` would fall into"""
+        if index < 0:
+            index = max(0, len(self._opcodes) + index)
+        frame: Optional[Frame] = None
+        remaining = 0
+        for opcode in self._opcodes[:index]:
+            if isinstance(opcode, Frame):
+                frame, remaining = opcode, opcode.arg
+            elif frame is not None:
+                remaining -= len(opcode.data)
+                if remaining <= 0:
+                    frame = None
+        return frame
+
     def insert(self, index: int, opcode: Opcode):
+        frame = None if isinstance(opcode, Frame) else self._enclosing_frame(index)
         self._opcodes.insert(index, opcode)
+        if frame is not None:
+            # a FRAME announces how many bytes of opcodes it wraps: an unpickler reading from a stream
+            # refuses (or mis-reads) opcodes that straddle the announced end of a frame
+            frame.arg += len(opcode.data)
+            frame.data = frame.encode()
         self._ast = None
         self._properties = None
 
@@ -1562,6 +1586,9 @@ class Stop(Opcode):
 
 class Frame(NoOp):
     name = "FRAME"
+
+    def encode_body(self) -> bytes:
+        return struct.pack("<Q", self.arg)
 
 
 class BinInt1(ConstantInt):
